@@ -29,7 +29,7 @@ RULE = ("byte strings = valid encodings mutated at every field / truncated at ev
         "= distinct case line")
 
 VN_WRAPS = ["coap_ticks", "coap_socket_send", "coap_socket_recv"]
-STATES = ["fresh", "obs", "blk2", "blk1", "client", "osc", "qfresh", "qb1", "qb2", "cblk2", "cobs"]
+STATES = ["fresh", "obs", "blk2", "blk1", "client", "osc", "qfresh", "qb1", "qb2", "cblk2", "cobs", "cq2", "wk"]
 
 
 def hostile_dgram(r, state):
@@ -38,13 +38,13 @@ def hostile_dgram(r, state):
     if x < 0.12:
         return gen_wire.rbytes(r, r.choice([0, 1, 2, 3, 4, 5, 6, 8, 13, 40]))
     tok = {"obs": b"\xaa\xbb", "blk2": b"\xcc\xdd", "blk1": b"\xee\xff", "client": b"\x11\x22",
-           "cblk2": b"\x11\x22", "cobs": b"\x11\x22", "qb1": b"\xe1\xe2", "qb2": b"\xd1\xd2"}.get(
+           "cblk2": b"\x11\x22", "cobs": b"\x11\x22", "cq2": b"\x11\x22", "qb1": b"\xe1\xe2", "qb2": b"\xd1\xd2"}.get(
         state, bytes([r.randrange(256)]))
     if r.random() < 0.3:
         tok = gen_wire.rbytes(r, r.choice([0, 1, 2, 8]))
     path = {"obs": b"obs", "blk2": b"big", "blk1": b"put", "qb1": b"put", "qb2": b"big"}.get(
         state, r.choice([b"canary", b"x", b"put", b"big", b"obs"]))
-    is_client = state in ("client", "cblk2", "cobs")
+    is_client = state in ("client", "cblk2", "cobs", "cq2")
     mid = r.choice([0x1001, 0x1002, 0x1003, 0x1004, r.randrange(65536)])
     if is_client:
         ty = r.choice([2, 2, 1, 0, 3])
@@ -92,13 +92,13 @@ def hostile_dgram(r, state):
         opts = [o for o in opts if o[0] not in (19, 31)] + [(19 if state == "qb1" or (state == "qfresh" and r.random() < 0.5) else 31, bv)]
         code = r.choice([3, 3, 1, 5, 2]) if state != "qb2" else r.choice([1, 1, 5, 3])
         ty = r.choice([1, 1, 1, 0])
-    if state in ("cblk2", "cobs") and r.random() < 0.7:
+    if state in ("cblk2", "cobs", "cq2") and r.random() < 0.7:
         # responses that continue / disturb the client's transfer or observation
-        if state == "cblk2":
+        if state in ("cblk2", "cq2"):
             num = r.choice([0, 1, 1, 2, 3, 40, 0xfffff])
             v = (num << 4) | (r.choice([0, 1]) << 3) | r.choice([0, 2, 2, 2, 6, 7])
             bv = v.to_bytes(max(1, (v.bit_length() + 7) // 8), "big") if v else b""
-            opts = [o for o in opts if o[0] != 23] + [(23, bv)]
+            opts = [o for o in opts if o[0] not in (23, 31)] + [(23 if state == "cblk2" else 31, bv)]
             if r.random() < 0.4:
                 opts.append((28, r.choice([b"", b"\x40", b"\x0b\xb8", b"\xff\xff\xff\xff"])))
             if r.random() < 0.4:
@@ -107,7 +107,18 @@ def hostile_dgram(r, state):
             opts = [o for o in opts if o[0] != 6] + [(6, r.choice([b"", b"\x06", b"\x05", b"\xff\xff\xff", b"\x00\x01"]))]
         code = r.choice([0x45, 0x45, 0x45, 0x44, 0x84, 0xa0, 0x5f])
         ty = r.choice([2, 1, 0, 0])
-    if not is_client or r.random() < 0.2:
+    if state == "wk":
+        # GET /.well-known/core with hostile filters (the built-in handler parses the query)
+        q = r.choice([b"rt=", b"rt=*", b"=", b"href=%", b"title=\"", b"rt=a*", b"if=%2", b"%", b"*",
+                      b"href=/" + b"a" * r.choice([1, 100, 250]), b"rt=%41%", b"ct=40", b"anchor=" + gen_wire.rbytes(r, 4),
+                      gen_wire.rbytes(r, r.choice([1, 3, 20]))])
+        opts = [o for o in opts if o[0] not in (11, 15)] + [(11, b".well-known"), (11, b"core"), (15, q)]
+        if r.random() < 0.3:
+            opts.append((15, r.choice([b"", b"rt=x", b"&"])))
+        if r.random() < 0.3:
+            opts.append((23, r.choice([b"", b"\x02", b"\x16", b"\x07", b"\xff\xff\xf2"])))
+        code = 1
+    elif not is_client or r.random() < 0.2:
         opts.append((11, path))
     if r.random() < 0.15:
         # values full of characters that the path / query reconstruction has to escape (sizes of
